@@ -97,6 +97,13 @@ def main(tier: str) -> int:
             chk.count("batch_rows_%s" % ("D" if sb["n"] == D else "D+1" if sb["n"] == D + 1 else sb["n"]))
             if sb["gap"] > 1e-9:
                 chk.fail("a row's value differs from the value obtained when that row is evaluated alone", {**d, "batch_rows": sb["n"], "relative_gap": sb["gap"], "first_row": sb["row0"]}, {"problem": pid, "clause": "rows"})
+        if fr.get("big") is not None:
+            bg = fr["big"]
+            chk.count("large_batch")
+            if bg["returned"] != bg["rows"]:
+                chk.fail("a benchmark problem does not return one value per row", {**d, "rows": bg["rows"], "values": bg["returned"]}, {"problem": pid, "clause": "shape"})
+            elif bg["gap"] is not None and bg["gap"] > 1e-9:
+                chk.fail("a row's value differs from the value obtained when that row is evaluated alone", {**d, "batch_rows": bg["rows"], "relative_gap": bg["gap"]}, {"problem": pid, "clause": "rows"})
         if fr.get("noisy_min") is not None:
             chk.count("noisy_bulk")
             if fr["noisy_min"] < opt - max(1e-6, 1e-9 * abs(opt)):
